@@ -71,7 +71,7 @@ struct TaprootCommitmentEnv {
     int m_i;
     TaprootCommitmentEnv(const std::vector<unsigned char>& control, const std::vector<unsigned char>& program, const CScript& script, uint256* tapleaf_hash);
     State Iterate();
-    std::vector<std::string> Description();
+    std::vector<std::string> Description(size_t from = 0); // the steps of the commitment check, starting with step #from
     bool m_applied_tweak;
 };
 
